@@ -69,6 +69,58 @@ def compare_fem(drv, kind, v, t, lump, dt="f64", it="i64"):
     return None
 
 
+def cur_wire(cur):
+    u1, u2, c1, c2 = [np.asarray(x, dtype=np.float64) for x in cur]
+    return " ".join("%s %s %s %s" % (wire.rawfloats(u1[k]), wire.rawfloats(u2[k]), wire.fhex(c1[k]), wire.fhex(c2[k])) for k in range(len(c1)))
+
+
+def compare_fem_aniso(drv, v, t, lump, aniso, aniso_smooth):
+    """Solver(tria, lump, aniso) vs the model's `solverAniso` fed with the curvature_tria output the implementation used"""
+    from . import capture
+    v = np.asarray(v, dtype=np.float64)
+    try:
+        with capture.capture() as calls:
+            m, s = impl_fem("tri", v, t, lump, aniso=aniso, aniso_smooth=aniso_smooth)
+    except Exception as e:  # noqa: BLE001
+        return "implementation raised %s: %s" % (type(e).__name__, str(e)[:100])
+    if len(calls.curv_tria) != 1:
+        return "%d curvature_tria calls" % len(calls.curv_tria)
+    a0, a1 = (aniso if isinstance(aniso, (tuple, list)) else (aniso, aniso))
+    r = wire.Reply(drv.ask("solver_aniso %d %s %s %s %s %s" % (int(lump), wire.verts(v), wire.elems(t), wire.fhex(float(a0)), wire.fhex(float(a1)),
+                                                           cur_wire(calls.curv_tria[0]))))
+    if r.status != "ok":
+        return "driver: " + r.raw[:200]
+    n = len(v)
+    a = core.sparse_from(*r.coo(), n); b = core.sparse_from(*r.coo(), n)
+    ia, ib = s.stiffness, s.mass
+    if ia.shape != a.shape or ib.shape != b.shape:
+        return "shape %s/%s vs %s" % (ia.shape, ib.shape, a.shape)
+    ea = core.sparse_relerr(ia.astype(np.float64), a); eb = core.sparse_relerr(ib.astype(np.float64), b)
+    if not (ea <= 2e-4 and eb <= 2e-4):          # LaPy stores the anisotropic matrices as float32
+        return "aniso stiffness rel.err %.3g, mass rel.err %.3g" % (ea, eb)
+    if (ib != 0).nnz != (b != 0).nnz:
+        return "mass sparsity pattern differs (lump=%s): %d vs %d stored entries" % (lump, (ib != 0).nnz, (b != 0).nnz)
+    return None
+
+
+def aniso_meshes(seed, n):
+    """closed / bordered oriented manifold meshes with non-trivial curvature for the anisotropic branch"""
+    rng = gen.rng_for(seed, "aniso")
+    out = []
+    for k in range(n):
+        kind = k % 3
+        if kind == 0:
+            v, t = gen.icosphere(1); v = v * rng.uniform(0.6, 1.8, 3)
+        elif kind == 1:
+            v, t = gen.torus(int(rng.integers(6, 10)), int(rng.integers(5, 8)))
+        else:
+            v, t = gen.cylinder(int(rng.integers(6, 10)), int(rng.integers(3, 6)))
+        v = v @ gen.random_rotation(rng).T
+        aniso = float(rng.uniform(0.5, 6.0)) if k % 2 else (float(rng.uniform(0.5, 6.0)), float(rng.uniform(0.0, 6.0)))
+        out.append(dict(v=np.asarray(v, float), t=np.asarray(t, np.int64), aniso=aniso, smooth=int(rng.integers(0, 4)), name=["ellipsoid", "torus", "cylinder"][kind]))
+    return out
+
+
 def run_stream(drv, stats, seed, n_tri, n_tet, size, failures, name="fem correspondence", dtypes=("f64",)):
     k = 0
     for c in gen.tria_stream(seed, n_tri, size):
